@@ -45,19 +45,23 @@ theorem apply_shape (c c' : Cont) (op : Op) (h : op.apply c = .ok c') :
     split at h
     · simp at h
     · split at h
-      · simp only [Except.ok.injEq] at h
-        exact Or.inr (Or.inl ⟨_, _, rfl, h.symm⟩)
       · simp at h
-      · simp only [Except.ok.injEq] at h
-        exact Or.inr (Or.inl ⟨_, _, rfl, h.symm⟩)
+      · split at h
+        · simp only [Except.ok.injEq] at h
+          exact Or.inr (Or.inl ⟨_, _, rfl, h.symm⟩)
+        · simp at h
+        · simp only [Except.ok.injEq] at h
+          exact Or.inr (Or.inl ⟨_, _, rfl, h.symm⟩)
   | setGroup t gs =>
     simp only [Op.apply, setGroup] at h
     split at h
     · simp at h
     · split at h
       · simp at h
-      · simp only [Except.ok.injEq] at h
-        exact Or.inr (Or.inl ⟨_, _, rfl, h.symm⟩)
+      · split at h
+        · simp at h
+        · simp only [Except.ok.injEq] at h
+          exact Or.inr (Or.inl ⟨_, _, rfl, h.symm⟩)
   | pickle =>
     simp only [Op.apply, pickleRoundtrip, Except.ok.injEq] at h
     exact Or.inl h.symm
@@ -206,15 +210,17 @@ def Spec.apply (m : OMap Val) : Op → Except Kind (OMap Val)
         else .ok (m.put t.pyStr (.str o.pyStr))
   | .del t => if (m.val t.pyStr).isSome then .ok (m.remove t.pyStr) else .error .keyError
   | .addGroup t item i =>
-    match item.toCont with
-    | .error e => .error e
-    | .ok g =>
-      match m.val t.pyStr with
-      | some (.group items) => .ok (m.put t.pyStr (.group (groupAdd items g i)))
-      | some _ => .error .attributeError
-      | none => .ok (m.put t.pyStr (.group (groupAdd [] g i)))
+    if !intLike t.pyStr then .error .fixMessageError
+    else match item.toCont with
+      | .error e => .error e
+      | .ok g =>
+        match m.val t.pyStr with
+        | some (.group items) => .ok (m.put t.pyStr (.group (groupAdd items g i)))
+        | some _ => .error .duplicated
+        | none => .ok (m.put t.pyStr (.group (groupAdd [] g i)))
   | .setGroup t items =>
-    if (m.val t.pyStr).isSome then .error .duplicated
+    if !intLike t.pyStr then .error .fixMessageError
+    else if (m.val t.pyStr).isSome then .error .duplicated
     else match buildItems items with
       | .error e => .error e
       | .ok gs => .ok (m.put t.pyStr (.group gs))
@@ -250,23 +256,29 @@ theorem apply_refines (c : Cont) (op : Op) (hnd : (keys c).Nodup) :
     · simp [h, Except.map]
   | addGroup t g i =>
     simp only [Op.apply, addGroup, Spec.apply, absMap_val]
-    cases g.toCont with
-    | error e => rfl
-    | ok gc =>
-      cases h : lookup t.pyStr c with
-      | none => simp [Except.map, absMap_dictSet]
-      | some v =>
-        cases v with
-        | group items => simp [Except.map, absMap_dictSet]
-        | str s => rfl
-        | cls k => rfl
+    cases intLike t.pyStr with
+    | false => rfl
+    | true =>
+      cases g.toCont with
+      | error e => rfl
+      | ok gc =>
+        cases h : lookup t.pyStr c with
+        | none => simp [Except.map, absMap_dictSet]
+        | some v =>
+          cases v with
+          | group items => simp [Except.map, absMap_dictSet]
+          | str s => rfl
+          | cls k => rfl
   | setGroup t gs =>
     simp only [Op.apply, setGroup, Spec.apply, absMap_val, hasKey]
-    by_cases h : (lookup t.pyStr c).isSome = true
-    · simp [h, Except.map]
-    · cases buildItems gs with
-      | error e => simp [h, Except.map]
-      | ok l => simp [h, Except.map, absMap_dictSet]
+    cases intLike t.pyStr with
+    | false => rfl
+    | true =>
+      by_cases h : (lookup t.pyStr c).isSome = true
+      · simp [h, Except.map]
+      · cases buildItems gs with
+        | error e => simp [h, Except.map]
+        | ok l => simp [h, Except.map, absMap_dictSet]
   | pickle => simp [Op.apply, Spec.apply, pickleRoundtrip, Except.map]
 
 theorem step_refines (c : Cont) (op : Op) (hnd : (keys c).Nodup) :
